@@ -109,6 +109,45 @@ func (L *Loaded) findPkgByName(from *types.Package, name string) *types.Package 
 	return nil
 }
 
+// findTypeQualified resolves pkgName.typeName as seen from a package; several imports may share
+// a package name (v1alpha1), so every candidate is tried.
+func (L *Loaded) findTypeQualified(from *types.Package, pkgName, typeName string) types.Type {
+	try := func(p *types.Package) types.Type {
+		if p == nil || p.Name() != pkgName {
+			return nil
+		}
+		if o := p.Scope().Lookup(typeName); o != nil {
+			if tn, ok := o.(*types.TypeName); ok {
+				return tn.Type()
+			}
+		}
+		return nil
+	}
+	if from != nil {
+		for _, imp := range from.Imports() {
+			if t := try(imp); t != nil {
+				return t
+			}
+		}
+	}
+	var paths []string
+	for path := range L.byPath {
+		paths = append(paths, path)
+	}
+	sort.Strings(paths)
+	for _, pref := range []bool{true, false} {
+		for _, path := range paths {
+			if strings.HasPrefix(path, galaxyPrefix) != pref {
+				continue
+			}
+			if t := try(L.byPath[path].Types); t != nil {
+				return t
+			}
+		}
+	}
+	return nil
+}
+
 // computeImmutableGlobals: package-level variables of galaxy packages that are never stored to
 // outside package initialisation.
 func (L *Loaded) computeImmutableGlobals() {
